@@ -1,4 +1,182 @@
+//! els-sync (C28), els-diag (C29), els-rename (C30): the real language server driven in-process through molc's FakeClient.
+//! One server per process (each server owns background threads), so every subcommand handles the first request line only.
+use std::panic::{catch_unwind, AssertUnwindSafe};
+use std::path::Path;
+use std::time::Duration;
+
+use els::{NormalizedUrl, Server};
+use erg_common::vfs::VFS;
+use lsp_types::notification::{DidChangeTextDocument, DidOpenTextDocument, DidSaveTextDocument};
+use lsp_types::{
+    DidChangeTextDocumentParams, DidOpenTextDocumentParams, DidSaveTextDocumentParams, Position, Range,
+    TextDocumentContentChangeEvent, TextDocumentIdentifier, TextDocumentItem, Url, VersionedTextDocumentIdentifier,
+};
+use molc::FakeClient;
 use serde_json::{json, Value};
-pub fn els_sync(_req: Value) -> Value { json!({"harness_error": "not implemented"}) }
-pub fn els_diag(_req: Value) -> Value { json!({"harness_error": "not implemented"}) }
-pub fn els_rename(_req: Value) -> Value { json!({"harness_error": "not implemented"}) }
+
+use crate::LAST_PANIC;
+
+fn take_panic() -> String {
+    LAST_PANIC.lock().ok().and_then(|mut g| g.take()).unwrap_or_else(|| "unknown".into())
+}
+
+fn changes_of(v: &Value) -> Vec<TextDocumentContentChangeEvent> {
+    v.as_array()
+        .unwrap()
+        .iter()
+        .map(|c| {
+            let range = c["range"].as_array().map(|r| {
+                let n = |i: usize| r[i].as_u64().unwrap() as u32;
+                Range::new(Position::new(n(0), n(1)), Position::new(n(2), n(3)))
+            });
+            TextDocumentContentChangeEvent { range, range_length: None, text: c["text"].as_str().unwrap().to_string() }
+        })
+        .collect()
+}
+
+fn start(path: &str, text: &str) -> Result<(FakeClient<Server>, Url), String> {
+    let mut client = Server::bind_fake_client();
+    client.request_initialize().map_err(|e| format!("initialize: {e}"))?;
+    client.notify_initialized().map_err(|e| format!("initialized: {e}"))?;
+    let uri = Url::from_file_path(Path::new(path)).map_err(|_| "bad path".to_string())?;
+    let params = DidOpenTextDocumentParams { text_document: TextDocumentItem::new(uri.clone(), "erg".to_string(), 1, text.to_string()) };
+    client.notify::<DidOpenTextDocument>(params).map_err(|e| format!("didOpen: {e}"))?;
+    Ok((client, uri))
+}
+
+fn server_text(client: &FakeClient<Server>, uri: &Url) -> Value {
+    let nuri = NormalizedUrl::new(uri.clone());
+    let cache = client.server.get_file_cache().get_entire_code(&nuri).ok();
+    let vfs = VFS.read(uri.to_file_path().unwrap()).ok();
+    json!({"cache": cache, "vfs": vfs})
+}
+
+/// {"path": "/abs/doc.er", "open_text": "...", "notifications": [{"changes": [{"range": [sl,sc,el,ec]|null, "text": ".."}]}]}
+/// -> {"steps": [{"cache": text, "vfs": text} | {"panic": ..} | {"error": ..}]}   (step 0 = after didOpen)
+pub fn els_sync(req: Value) -> Value {
+    let path = req["path"].as_str().unwrap().to_string();
+    let started = catch_unwind(AssertUnwindSafe(|| start(&path, req["open_text"].as_str().unwrap())));
+    let (mut client, uri) = match started {
+        Ok(Ok(x)) => x,
+        Ok(Err(e)) => return json!({"harness_error": e}),
+        Err(_) => return json!({"steps": [{"panic": take_panic()}]}),
+    };
+    let mut steps = vec![server_text(&client, &uri)];
+    let mut ver = 2;
+    for n in req["notifications"].as_array().unwrap() {
+        let params = DidChangeTextDocumentParams {
+            text_document: VersionedTextDocumentIdentifier::new(uri.clone(), ver),
+            content_changes: changes_of(&n["changes"]),
+        };
+        ver += 1;
+        let r = catch_unwind(AssertUnwindSafe(|| client.notify::<DidChangeTextDocument>(params)));
+        match r {
+            Ok(Ok(())) => steps.push(server_text(&client, &uri)),
+            Ok(Err(e)) => steps.push(json!({"error": format!("{e}")})),
+            Err(_) => {
+                steps.push(json!({"panic": take_panic()}));
+                break;
+            }
+        }
+    }
+    json!({"steps": steps})
+}
+
+fn drain(client: &mut FakeClient<Server>, settle_ms: u64, max_ms: u64) -> usize {
+    let t0 = std::time::Instant::now();
+    loop {
+        let before = client.responses.len();
+        let _ = client.wait_with_timeout::<Value>(Duration::from_millis(settle_ms));
+        if client.responses.len() == before || t0.elapsed() > Duration::from_millis(max_ms) {
+            return client.responses.len();
+        }
+    }
+}
+
+fn last_diagnostics(client: &FakeClient<Server>) -> Value {
+    let mut last = serde_json::Map::new();
+    let mut count = 0;
+    for m in client.responses.iter() {
+        if m.get("method").and_then(|v| v.as_str()) == Some("textDocument/publishDiagnostics") {
+            count += 1;
+            let uri = m["params"]["uri"].as_str().unwrap_or("").to_string();
+            last.insert(uri, m["params"]["diagnostics"].clone());
+        }
+    }
+    json!({"last": last, "publish_count": count, "messages": client.responses.len()})
+}
+
+/// {"path", "open_text", "notifications": [{"changes": [...], "save": bool}], "settle_ms": n}
+/// -> {"diagnostics": {"last": {uri: [...]}, ...}, "final_text": ...}
+pub fn els_diag(req: Value) -> Value {
+    let path = req["path"].as_str().unwrap().to_string();
+    let settle = req["settle_ms"].as_u64().unwrap_or(2500);
+    let r = catch_unwind(AssertUnwindSafe(|| -> Result<Value, String> {
+        let (mut client, uri) = start(&path, req["open_text"].as_str().unwrap())?;
+        drain(&mut client, settle, 60_000);
+        let mut ver = 2;
+        for n in req["notifications"].as_array().unwrap() {
+            let params = DidChangeTextDocumentParams {
+                text_document: VersionedTextDocumentIdentifier::new(uri.clone(), ver),
+                content_changes: changes_of(&n["changes"]),
+            };
+            ver += 1;
+            client.notify::<DidChangeTextDocument>(params).map_err(|e| format!("didChange: {e}"))?;
+            if n["save"].as_bool().unwrap_or(false) {
+                // the client writes the file before it says it saved it
+                let text = client.server.get_file_cache().get_entire_code(&NormalizedUrl::new(uri.clone())).map_err(|e| format!("{e}"))?;
+                std::fs::write(&path, &text).map_err(|e| format!("{e}"))?;
+                client
+                    .notify::<DidSaveTextDocument>(DidSaveTextDocumentParams { text_document: TextDocumentIdentifier::new(uri.clone()), text: None })
+                    .map_err(|e| format!("didSave: {e}"))?;
+            }
+            if n["drain"].as_bool().unwrap_or(false) {
+                drain(&mut client, settle, 60_000);
+            }
+        }
+        drain(&mut client, settle, 120_000);
+        // stability re-check: nothing may arrive during a second, longer silence window
+        let n1 = client.responses.len();
+        let d1 = last_diagnostics(&client);
+        drain(&mut client, settle * 2, 120_000);
+        let d2 = last_diagnostics(&client);
+        let text = server_text(&client, &uri);
+        Ok(json!({"diagnostics": d2, "stable": d1["last"] == d2["last"], "late_messages": client.responses.len() - n1, "final_text": text["cache"]}))
+    }));
+    match r {
+        Ok(Ok(v)) => v,
+        Ok(Err(e)) => json!({"error": e}),
+        Err(_) => json!({"panic": take_panic()}),
+    }
+}
+
+/// {"path", "text", "requests": [[line, col, "new_name"], ...]} -> {"edits": [WorkspaceEdit|null|{"error"}]}
+pub fn els_rename(req: Value) -> Value {
+    let path = req["path"].as_str().unwrap().to_string();
+    let r = catch_unwind(AssertUnwindSafe(|| -> Result<Value, String> {
+        let text = req["text"].as_str().unwrap();
+        std::fs::write(&path, text).map_err(|e| format!("{e}"))?;
+        let (mut client, uri) = start(&path, text)?;
+        drain(&mut client, 1500, 60_000);
+        let mut out = vec![];
+        for q in req["requests"].as_array().unwrap() {
+            let (line, col) = (q[0].as_u64().unwrap() as u32, q[1].as_u64().unwrap() as u32);
+            let new_name = q[2].as_str().unwrap();
+            let r = catch_unwind(AssertUnwindSafe(|| client.request_rename(uri.clone(), line, col, new_name)));
+            match r {
+                Ok(Ok(edit)) => out.push(serde_json::to_value(edit).unwrap_or(Value::Null)),
+                Ok(Err(e)) => out.push(json!({"error": format!("{e}")})),
+                Err(_) => {
+                    out.push(json!({"panic": take_panic()}));
+                    break;
+                }
+            }
+        }
+        Ok(json!({"edits": out}))
+    }));
+    match r {
+        Ok(Ok(v)) => v,
+        Ok(Err(e)) => json!({"error": e}),
+        Err(_) => json!({"panic": take_panic()}),
+    }
+}
